@@ -33,7 +33,7 @@ type c13Case struct {
 
 func c13Cases(c *ev.Ctx) []c13Case {
 	var out []c13Case
-	n := c.N(900, 12000)
+	n := c.N(900, 40000)
 	for i := 0; i < n; i++ {
 		r := rng(c, i)
 		cc := c13Case{Class: img.Classes[i%len(img.Classes)], Alpha: pickS(r, "opaque", "opaque", "binary", "gradient", "noise"), Sub: i}
